@@ -578,6 +578,26 @@ def c19_engine(pid, tier, seed, exe, workdir, V):
     return _join(fuzz_engine(pid, tier, seed, exe, workdir, V), descr_engine(pid, tier, seed, exe, workdir, V))
 
 
+def c09_engine(pid, tier, seed, exe, workdir, V):
+    """static half (lock skeleton regenerated from the tree, lock-order obligation) + calls that must return:
+    Drop under load, Drop after a large batch, Close while the storage fails, each under a watchdog"""
+    res = lock_engine(pid, tier, seed, exe, workdir, V)
+    n = 3 if tier == 'quick' else 40
+    out = os.path.join(workdir, 'lockprobes.txt')
+    _sh([exe, '-lockprobes', '-seed', str(seed), '-n', str(n), '-out', out], timeout=3000)
+    txt = open(out).read() if os.path.exists(out) else ''
+    for l in txt.splitlines():
+        if l.startswith('! C09'):
+            res['oracle_failures'].append({'line': l, 'replay': [l], 'hist': 'lock probes'})
+        elif l.startswith('probe '):
+            res['evaluations'] += 3
+            res['nontrivial'] += 3
+    if 'lockprobes done' not in txt:
+        res['oracle_failures'].append({'line': '! C09 the lock probes did not finish (harness blocked or dead): ' + txt[-300:], 'replay': txt.splitlines()[-5:], 'hist': 'lock probes'})
+    res['summary'] = res.get('summary', '') + '\nlock probes: %d x (Drop under load, Drop after a large batch, Close while the storage fails)' % n
+    return res
+
+
 def run_extra(pid, tier, seed, exe, workdir, V):
     mod = EXTRA.get(pid)
     if mod is None:
@@ -585,4 +605,4 @@ def run_extra(pid, tier, seed, exe, workdir, V):
     return mod(pid, tier, seed, exe, workdir, V)
 
 
-EXTRA = {'C02': c02_engine, 'C13': time_engine, 'C16': c16_engine, 'C17': descr_engine, 'C14': clone_engine, 'C19': c19_engine, 'C09': lock_engine, 'C08': race_engine, 'C12': pair_engine, 'C18': golden_engine}
+EXTRA = {'C02': c02_engine, 'C13': time_engine, 'C16': c16_engine, 'C17': descr_engine, 'C14': clone_engine, 'C19': c19_engine, 'C09': c09_engine, 'C08': race_engine, 'C12': pair_engine, 'C18': golden_engine}
